@@ -90,7 +90,68 @@ def real_groups(tier, seed):
                        "calls": ["run_real<double,%d,%d,%d>(%du);" % (m, k, n, seed + m) for (m, k, n) in [(8, 3, 23), (5, 2, 21), (12, 3, 44), (9, 4, 26)]]})
     return groups
 
+# --- intrinsic kernels of matmul_specialisations_kernels.h (added by the C08 builder): theorems Props/C01Kernels_<isa>.lean about
+# the definitions the C08 translator generates from the current tree.  (a) they are counted in the evidence; (b) when one
+# of them no longer builds, the real-type oracle cases run_real<T,M,K,N> of exactly those shapes are run.
+KERNEL_MODULES = ["C01Kernels_sse2", "C01Kernels_avx2", "C01Kernels_avx512"]
+
+def kernel_theorems():
+    import os, re
+    out = {}
+    for mod in KERNEL_MODULES:
+        p = os.path.join(core.LEAN, "FastorModel", "Props", mod + ".lean")
+        if not os.path.exists(p): continue
+        src = open(p).read().split("\n")
+        starts = [(i + 1, re.match(r"^theorem\s+(\S+)", l).group(1)) for i, l in enumerate(src) if re.match(r"^theorem\s+\S+", l)]
+        out[mod] = [(ln, starts[k + 1][0] - 1 if k + 1 < len(starts) else len(src), nm) for k, (ln, nm) in enumerate(starts)]
+    return out
+
+def kernel_stage(tier, seed):
+    """-> (extra coverage dict, None) when the kernel theorems build, else (None, exit code) after reporting"""
+    import re
+    log = []
+    core.regen_generated(log)
+    ok, out = core.lake_build(targets=["FastorModel.Props." + m for m in KERNEL_MODULES], log=log)
+    thms = kernel_theorems()
+    n = sum(len(t) for t in thms.values())
+    if ok:
+        return {"kernel_theorems": {"modules": {m: len(t) for m, t in thms.items()}, "total": n, "log": log,
+                                    "what": "value (out[i*N+j] = sum_k a[i*K+k]*b[k*N+j] under the ring laws used) and footprint theorems for the intrinsic "
+                                            "_matmul specialisations / generic-K families as translated from the current tree (Generated/Simd_<isa>.lean)"}}, None
+    mods, errs = core.failed_modules(out)
+    if not any(m.startswith("FastorModel.Props.C01Kernels") for m in mods):
+        return {"kernel_theorems": {"total": n, "build": "failed outside the kernel modules", "log": log}}, None
+    v = core.Verdict(PID, tier, seed)
+    broken = []
+    for mod, tl in thms.items():
+        for (f, ln, col, msg) in errs:
+            if f.endswith("Props/%s.lean" % mod):
+                for (a, b, nm) in tl:
+                    if a <= int(ln) <= b and (mod, nm) not in broken: broken.append((mod, nm))
+    calls = {}
+    for mod, nm in broken:
+        m = re.match(r"^matmul(?:8k8_(?:float|double))?_(float|double)_(\d+)_(\d+)_(\d+)", nm)
+        if m: calls.setdefault(mod.split("_")[1], set()).add("run_real<%s,%s,%s,%s>(%du);" % (m.group(1), m.group(2), m.group(3), m.group(4), seed * 131 + 7))
+    groups = [{"key": "%s/kernels" % isa, "header": "matmul_real.h", "isa": isa, "opt": o, "calls": sorted(cs), "pre": "static bool g_verbose=false;"}
+              for isa, cs in calls.items() for o in ("-O2", "-O1")]
+    with core.Scratch() as wd:
+        real_n, real_fail, rinfra, _ = flow.run_oracle_groups(groups, wd)
+        flow.report_infra(v, rinfra)
+        for g, line, call in real_fail:
+            v.violation("real " + line.split("|")[0].strip(), {"kind": "real-oracle", "group": g["key"], "isa": g["isa"], "defs": [], "std": "c++14", "opt": g.get("opt", "-O2"),
+                        "header": g["header"], "pre": g.get("pre", ""), "line": line, "call": call})
+    for mod, nm in broken:
+        v.violation("proof-obligation %s.%s" % (mod, nm), {"kind": "proof-obligation", "theorem": "%s.%s" % (mod, nm), "errors": ["%s:%s: %s" % (e[0], e[1], e[3][:300]) for e in errs][:20],
+                    "note": "the kernel theorem about the definition generated from the current tree no longer builds (the intrinsic sequence of the kernel changed, or it left the translator's grammar — see ./check C08); "
+                            "the real-type oracle run_real<T,M,K,N> of this shape was run: " + ("failing cases are in the other replay files" if real_fail else "no failing input found")},
+                    nofail=not real_fail)
+    v.cov.update({"obligations": n, "discharged": n - len(broken), "evaluations": real_n, "rule": "kernel theorem(s) broken: real-type oracle cases of exactly those shapes", "kernel_theorems_broken": ["%s.%s" % b for b in broken]})
+    return None, v.finish()
+
 def run(tier, seed):
+    extra, rc = kernel_stage(tier, seed)
+    if extra is None:
+        return rc
     return flow.standard_run(
         PID, tier, seed, "Fastor.C01.matmul_exact", "FastorModel.Model.Matmul", sym_groups, real_groups,
         assumptions=["extents and indices do not overflow size_t (N < 2^64 is a hypothesis of the theorem)",
@@ -100,7 +161,7 @@ def run(tier, seed):
         rule="symbolic cases: (cfg, sizeof T, M, K, N) instantiations of the real _matmul template over the free-commutative-ring carrier, compared "
              "with the Lean model on values, ordered store positions, read sets and vector width; non-trivial = dispatches to a vectorised kernel "
              "(base/basemasked/smalln/matvec). oracle cases: 6 element types x ISAs on integer data vs naive loop (immediate, lazy, raw + sentinels)",
-        nontrivial=lambda inp, mo: symrun.kv(mo).get("route") not in ("tiny", "nonprim"))
+        nontrivial=lambda inp, mo: symrun.kv(mo).get("route") not in ("tiny", "nonprim"), extra_cov=extra)
 
 def sym_call_of(inp):
     d = symrun.kv(inp)
